@@ -53,6 +53,12 @@ const F72: &[(&str, &str)] = &[
     ("/COVR/@72-other-code-word", "/COVR/TEXT"),
     ("/COV/@72", "/COV/COVER PAYMENT"),
     ("/COVER/@72", "/COVER/PAYMENT"),
+    // the word on one line only of several: any line counts, not all of them
+    ("/COV/@72-second-line", "/INS/BANK ONE\n/COV/COVER PAYMENT"),
+    ("/COVER/@72-first-of-two-lines", "/COVER/PAYMENT\n/INS/BANK ONE"),
+    ("/RETN/@72-first-of-two-lines", "/RETN/AC04\n/INS/BANK ONE"),
+    ("/REJT/@72-third-line", "/INS/BANK ONE\n//CONTINUED\n/REJT/AC01"),
+    ("/REJT/@72-first-of-three-lines", "/REJT/AC01\n//CONTINUED\n/INS/BANK ONE"),
 ];
 const MUR: &[(&str, Option<&str>)] = &[
     ("none", None),
